@@ -597,6 +597,22 @@ fn deftype_sensitive_programs() -> Vec<String> {
             }
         }
     }
+    // a DEFtype statement BETWEEN subprogram definitions: the parameters, function names and variables written before
+    // it keep the default type they had there; what follows it has the new one
+    for (kw, lit, op) in [("DEFINT", "7", "+ 1"), ("DEFLNG", "70000", "+ 1"), ("DEFDBL", "2.5#", "* 2"), ("DEFSTR", "\"ab\"", "+ \"!\""), ("DEFSNG", "1.5", "* 2")] {
+        for (lo, hi) in [('A', 'Z'), ('M', 'P'), ('T', 'T')] {
+            let mid = ((lo as u8 + hi as u8) / 2) as char;
+            for first in [lo, mid, hi] {
+                let f = first.to_ascii_lowercase();
+                let head = if kw == "DEFSNG" { "DEFDBL A-Z\n" } else { "" };
+                let range = if lo == hi { format!("{}", lo) } else { format!("{}-{}", lo, hi) };
+                out.push(format!(
+                    "{head}DECLARE SUB Show ({f}val)\nDECLARE FUNCTION {f}wice ({f}val)\n{f}mount = 2.5\nPRINT \"start\"\nShow {f}mount\nShow 7\nPRINT {f}wice(3); {f}wice({f}mount)\nPRINT Later(1)\nPRINT \"done\"\nEND\nSUB Show ({f}val)\n  PRINT \"value\"; {f}val * 2\nEND SUB\nFUNCTION {f}wice ({f}val)\n  {f}wice = {f}val * 2\nEND FUNCTION\n{kw} {range}\nFUNCTION Later (n%)\n  {f}local = {lit}\n  {f}local = {f}local {op}\n  PRINT {f}local\n  Later = n%\nEND FUNCTION\n",
+                    head = head, f = f, kw = kw, range = range, lit = lit, op = op
+                ));
+            }
+        }
+    }
     out
 }
 
@@ -877,7 +893,7 @@ pub fn drive(tier: &str) -> i32 {
     }
     groups.push(super::run_text_group(&mut run, &pool, "generated control programs: renaming, single edits", &progs, 20, &extra));
     groups.push(super::run_text_group(&mut run, &pool, "statement templates inside 8 containers (SUB / FUNCTION / STATIC SUB bodies, single-line IF, IF in FOR, CASE, ELSE in WHILE, SUB with shared declarations): soundness, renaming", &vcore::slots::instantiate_in_containers(if quick { &[] } else { &[0] }), 40, &extra));
-    groups.push(super::run_text_group(&mut run, &pool, "programs whose verdict depends on the default type of a bare name (5 DEFtype kinds x 3 ranges x first / middle / last letter)", &deftype_sensitive_programs(), 5, &extra));
+    groups.push(super::run_text_group(&mut run, &pool, "programs whose verdict depends on the default type of a bare name (5 DEFtype kinds x 3 ranges x first / middle / last letter; the DEFtype statement at the top, or between subprogram definitions)", &deftype_sensitive_programs(), 5, &extra));
     let mut stmts: Vec<String> = vcore::slots::instantiate(if quick { 1 } else { 2 }).into_iter().map(|(_, s)| vcore::slots::program(&s)).collect();
     if quick {
         stmts = stmts.into_iter().step_by(2).collect();
